@@ -9,6 +9,7 @@
 import Stef.Proofs.Alloc
 import Stef.Proofs.ReaderProgress
 import Stef.Proofs.Sizes
+import Stef.Proofs.StrBound
 import Stef.Spec
 
 namespace Stef.Props.C03
@@ -53,6 +54,21 @@ theorem column_budget_conserved (t : Sizes.ColTree) (s : Sizes.St) :
     (Sizes.readSizes t s).1.alloc.sum + (Sizes.readSizes t s).1.limit = s.alloc.sum + s.limit :=
   Sizes.readSizes_conserve t s
 
+/-- **string / bytes decoder stays inside its column**: whatever length the untrusted column
+    announces (up to 2^63-1, where the Go bounds check used to overflow: fix 13475f4), a decoded string
+    and the remaining column are disjoint parts of the column - a value is never fabricated from
+    memory outside it; a length beyond the column is an error. The model is tied to the Go decoders
+    on hostile columns op for op (h_prim `dechostile`). -/
+theorem string_decode_within_column (buf v rest : Bytes) (h : Codec.strDecode buf = .ok (v, rest)) :
+    v.length + rest.length < buf.length := Codec.strDecode_within buf v rest h
+
+/-- the dictionary string decoder returns an entry of its dictionary or a part of the column, and its
+    dictionary grows only by values read from the column. -/
+theorem dict_string_decode_within_column (d d' : List Bytes) (buf v rest : Bytes)
+    (h : Codec.strDictDecode d buf = .ok (d', v, rest)) :
+    rest.length < buf.length ∧ (v ∈ d ∨ v.length + rest.length < buf.length) ∧ (d' = d ∨ d' = d ++ [v]) :=
+  Codec.strDictDecode_within d d' buf v rest h
+
 /-- the allocation counter saturates instead of wrapping. -/
 theorem alloc_counter_saturates (a : Alloc.Checker) (size : Nat) (ha : a.allocatedSize ≤ Alloc.maxUint) :
     a.allocatedSize ≤ (a.addAllocSize size).allocatedSize ∧
@@ -64,6 +80,13 @@ theorem limits_are_from_source : Gen.multimapElemCountLimit = 1024 ∧ Gen.frame
     Gen.recordAllocLimit = 33554432 ∧ Gen.varHdrContentSizeLimit = 1048576 := by decide
 
 -- non-vacuity
+-- a length prefix of 2^63-1 (zig-zag 0xfe ff.. 01) over a 2-byte remainder is an error, not a string
+example : (match Codec.strDecode [0xfe#8, 0xff#8, 0xff#8, 0xff#8, 0xff#8, 0xff#8, 0xff#8, 0xff#8, 0xff#8, 0x01#8, 0x41#8, 0x42#8] with
+    | .error .eof => true | _ => false) = true := by
+  with_unfolding_all decide
+example : (match Codec.strDecode [0x04#8, 0x41#8, 0x42#8, 0x43#8] with
+    | .ok (v, rest) => v == [0x41#8, 0x42#8] && rest == [0x43#8] | _ => false) = true := by
+  with_unfolding_all decide
 -- three columns each claiming 3 bytes of a budget of 8 (size table 0x77 0x70): each claim fits
 -- alone, the third is refused, and what was allocated before the refusal is 2 + 3 + 3 <= 10
 example : (Sizes.readFrom (.node [.node [], .node []]) [0x02#8, 0x77#8, 0x70#8] 10).outcome = .errColLimit ∧
